@@ -2988,7 +2988,8 @@ func (m *Machine) IsTime(t Time, states S) bool {
 	}
 
 	for i, tick := range t {
-		if m.clock[states[i]] != tick {
+		// a longer time slice can't match
+		if i >= len(states) || m.clock[states[i]] != tick {
 			return false
 		}
 	}
@@ -3011,7 +3012,8 @@ func (m *Machine) WasTime(t Time, states S) bool {
 	}
 
 	for i, tick := range t {
-		if m.clock[states[i]] < tick {
+		// a longer time slice can't have happened
+		if i >= len(states) || m.clock[states[i]] < tick {
 			return false
 		}
 	}
